@@ -244,14 +244,22 @@ def presence_grid_cases(ctx, every=1):
     """Every presence pattern of a three-member SEQUENCE and SET: each member mandatory, OPTIONAL or DEFAULT, and
     for each pattern every combination of present / absent / equal-to-default values.  What random types give only
     by luck: a DEFAULT omitted in front of a present OPTIONAL, at the first, middle and last position; the same with
-    an untagged CHOICE as one of the members (reached while standing on an OPTIONAL/DEFAULT position)."""
+    an untagged CHOICE as one of the members (reached while standing on an OPTIONAL/DEFAULT position), with a CHOICE nested
+    directly in a CHOICE, and with two untagged CHOICE members in one run."""
     import itertools
     members0 = [(('int',), ('i', 7), ('i', 1)), (('octs',), ('o', b'ab'), ('o', b'd')), (('bool',), ('b', True), ('b', False))]
     # the CHOICE's DEFAULT holds the same inner value under the OTHER alternative: equal content, different value
     ch = (('choice', [('imp', (128, 0, 5), ('int',)), ('imp', (128, 0, 6), ('int',)), ('oid',)]), ('ch', 1, ('i', 7)), ('ch', 0, ('i', 7)))
+    # an untagged CHOICE directly inside an untagged CHOICE (the member's tags are two levels down)
+    ch2 = (('choice', [('choice', [('imp', (128, 0, 5), ('int',)), ('imp', (128, 0, 6), ('int',))]), ('oid',)]),
+           ('ch', 0, ('ch', 1, ('i', 7))), ('ch', 0, ('ch', 0, ('i', 7))))
+    # a second untagged CHOICE with tags of its own: two such members in one run of OPTIONAL/DEFAULT positions
+    chb = (('choice', [('imp', (128, 0, 7), ('octs',)), ('null',)]), ('ch', 0, ('o', b'q')), ('ch', 1, ('null',)))
+    families = [members0] + [members0[:j] + [c] + members0[j + 1:] for c in (ch, ch2) for j in range(3)]
+    families += [[ch, chb, members0[2]], [ch, members0[1], chb], [members0[0], ch, chb], [chb, ch2, members0[2]]]
     out, i = [], 0
     # the plain family, then the same with an untagged CHOICE (mandatory, OPTIONAL or DEFAULT) at the first, middle, last position
-    for kind, members in [(k, m) for k in ('seq', 'set') for m in [members0] + [members0[:j] + [ch] + members0[j + 1:] for j in range(3)]]:
+    for kind, members in [(k, m) for k in ('seq', 'set') for m in families]:
         for pres in itertools.product(('req', 'opt', 'def'), repeat=3):
             fields = []
             for p, (t, val, dflt) in zip(pres, members):
